@@ -5,7 +5,7 @@ from harness import gen_seq
 from runner import Case, CaseSet
 
 ID = 'C07'
-OBLIGATIONS = ['Props/C07.v', 'Props/Tie/charge_tie.v']
+OBLIGATIONS = ['Props/C07.v', 'Props/Tie/charge_tie.v', 'Props/Tie/minipy_scd_tie.v']
 RULE = ('exhaustive +/-/0 patterns of length 1..n (quick 7, thorough 9) with random spellings; random class sequences up '
         'to 150 (thorough 300) residues; long homopolymeric / periodic / diblock charged sequences (127..300); singletons; non-trivial = distinct sequence with >= 2 charged residues')
 TRUSTED = ['enclosure of sqrt d by Z.sqrt to 12 decimals (proved sound: C07_enclosure); slack 1e-9 for float rounding']
@@ -15,6 +15,8 @@ LEVEL_TEXT = ('Proof (over R, stdlib real axioms): the pair-sum definition of SC
               '(C05). get_SCD() is checked inside Coq to lie in the proved enclosure (+1e-9) for every generated sequence.')
 LEVEL_NOTE = ('Axioms (Print Assumptions): ClassicalDedekindReals.sig_forall_dec, sig_not_dec, FunctionalExtensionality.'
               'functional_extensionality_dep (Coq Reals). Double loop of the code tied by correspondence + bounded theorem (N<=7).')
+LEVEL_NOTE_MINIPY = (' Whole-function tie (minipy_scd_tie.v): sequence_charge_decoration is translated into a Core/MiniPy.v term on every run; for every non-empty charge pattern and every value of the '
+                     'np.power(d, 0.5) oracle the translated double loop returns (sum over m > n of q_m q_n R(m-n)) / N.')
 TECHNIQUE = 'Coq proof over R (resummation by induction, sqrt enclosure via Z.sqrt_spec) + in-Coq enclosure check of get_SCD()'
 
 IMPORTS = ('From Coq Require Import List ZArith QArith String.\n'
